@@ -17,7 +17,7 @@ import (
 	. "vh/vhlib"
 )
 
-var gens = map[string]GenFn{"SrcTokens": genSrcTokens, "HealthOps": genHealthOps, "LBTokens": genLBTokens, "HealthLoop": genHealthLoop, "RRTokens": genRRTokens, "HealthStoreOps": genHealthStoreOps, "SubsetTokens": genSubsetTokens, "HostSetTokens": genHostSetTokens}
+var gens = map[string]GenFn{"SrcTokens": genSrcTokens, "HealthOps": genHealthOps, "LBTokens": genLBTokens, "HealthLoop": genHealthLoop, "RRTokens": genRRTokens, "HealthStoreOps": genHealthStoreOps, "SubsetTokens": genSubsetTokens, "HostSetTokens": genHostSetTokens, "CriteriaTokens": genCriteriaTokens, "HealthXferTokens": genHealthXferTokens}
 
 // genSrcTokens: literal tokens / constants at named sites.
 //
@@ -770,5 +770,66 @@ func genHostSetTokens(repo string) (string, error) {
 		b.WriteString("(* AppendSimpleHostHandler: text not recognised *)\nDefinition hs_append_distinct := true.\n")
 	}
 	fmt.Fprintf(&b, "Definition HostSetTokens_translator_ok := %v.\n", ok)
+	return b.String(), nil
+}
+
+// ---------------------------------------------------------------------------
+// genCriteriaTokens: how does downStream.MetadataMatchCriteria (pkg/proxy/downstream.go) produce the criteria of a
+// request that carries dynamic metadata?
+//
+//	CritFresh        : route pairs whose key the request does not name are added to the request's map and a NEW object
+//	                   is built with router.NewMetadataMatchCriteriaImpl (the text in the tree)
+//	CritMergeInPlace : routerMeta.MergeMatchCriteria(varMeta) - writes into the route's shared object
+//
+// Any other text => not ok.
+const critHead = "{\n\tvar varMeta map[string]string\n\tif v, err := variable.Get(s.context, types.VarRouterMeta); err == nil && v != nil {\n\t\tif m, ok := v.(map[string]string); ok {\n\t\t\tvarMeta = m\n\t\t}\n\t}\n\tvar routerMeta api.MetadataMatchCriteria\n\tif s.requestInfo.RouteEntry() != nil {\n\t\trouterMeta = s.requestInfo.RouteEntry().MetadataMatchCriteria(s.cluster.Name())\n\t}\n\tif varMeta == nil {\n\t\treturn routerMeta\n\t}\n"
+const critFresh = critHead + "\tif routerMeta != nil {\n\t\tfor _, kv := range routerMeta.MetadataMatchCriteria() {\n\t\t\tif _, ok := varMeta[kv.MetadataKeyName()]; !ok {\n\t\t\t\tvarMeta[kv.MetadataKeyName()] = kv.MetadataValue()\n\t\t\t}\n\t\t}\n\t}\n\treturn router.NewMetadataMatchCriteriaImpl(varMeta)\n}"
+const critInPlace = critHead + "\tif routerMeta == nil {\n\t\treturn router.NewMetadataMatchCriteriaImpl(varMeta)\n\t}\n\treturn routerMeta.MergeMatchCriteria(varMeta)\n}"
+
+func genCriteriaTokens(repo string) (string, error) {
+	txt, err := funcText(repo, "pkg/proxy/downstream.go", "downStream", "MetadataMatchCriteria")
+	if err != nil {
+		return "", err
+	}
+	var b strings.Builder
+	b.WriteString("From MV Require Import Model.Criteria.\n")
+	switch normText(txt) {
+	case normText(critFresh):
+		b.WriteString("Definition crit_mode : crit_shape := CritFresh.\nDefinition CriteriaTokens_translator_ok := true.\n")
+	case normText(critInPlace):
+		b.WriteString("Definition crit_mode : crit_shape := CritMergeInPlace.\nDefinition CriteriaTokens_translator_ok := true.\n")
+	default:
+		b.WriteString("(* downStream.MetadataMatchCriteria: text not recognised *)\nDefinition crit_mode : crit_shape := CritFresh.\nDefinition CriteriaTokens_translator_ok := false.\n")
+	}
+	return b.String(), nil
+}
+
+// ---------------------------------------------------------------------------
+// genHealthXferTokens: what does transferHostSetStates (cluster_manager.go, host replacement at the same address in a
+// slow-start cluster) do with health flags?
+//
+//	XferNone        : only LastHealthCheckPassTime is carried over (the text in the tree)
+//	XferReadThenSet : additionally `if flags := h.HealthFlag(); flags != 0 { host.SetHealthFlag(flags) }`
+//
+// Any other text => not ok.
+const xferHead = "{\n\tif ns.Size() == 0 {\n\t\treturn\n\t}\n\toldHosts := make(map[string]types.Host, os.Size())\n\tos.Range(func(host types.Host) bool {\n\t\toldHosts[host.AddressString()] = host\n\t\treturn true\n\t})\n\tnow := time.Now()\n\tns.Range(func(host types.Host) bool {\n\t\tif h, ok := oldHosts[host.AddressString()]; ok {\n\t\t\thost.SetLastHealthCheckPassTime(h.LastHealthCheckPassTime())\n"
+const xferTail = "\t\t} else {\n\t\t\thost.SetLastHealthCheckPassTime(now)\n\t\t}\n\t\treturn true\n\t})\n}"
+const xferReadThenSet = "\t\t\tif flags := h.HealthFlag(); flags != 0 {\n\t\t\t\thost.SetHealthFlag(flags)\n\t\t\t}\n"
+
+func genHealthXferTokens(repo string) (string, error) {
+	txt, err := funcText(repo, "pkg/upstream/cluster/cluster_manager.go", "", "transferHostSetStates")
+	if err != nil {
+		return "", err
+	}
+	var b strings.Builder
+	b.WriteString("From MV Require Import Model.HealthTransfer.\n")
+	switch normText(txt) {
+	case normText(xferHead + xferTail):
+		b.WriteString("Definition xfer_mode : xfer_shape := XferNone.\nDefinition HealthXferTokens_translator_ok := true.\n")
+	case normText(xferHead + xferReadThenSet + xferTail):
+		b.WriteString("Definition xfer_mode : xfer_shape := XferReadThenSet.\nDefinition HealthXferTokens_translator_ok := true.\n")
+	default:
+		b.WriteString("(* transferHostSetStates: text not recognised *)\nDefinition xfer_mode : xfer_shape := XferNone.\nDefinition HealthXferTokens_translator_ok := false.\n")
+	}
 	return b.String(), nil
 }
